@@ -332,6 +332,27 @@ class Check(Property):
             if oa == 0 and ob == 0 and n != 0 and want_n != 0:
                 if not close(r["ok"]["rel"], abs(s / n)):
                     v.append(f"{tag}: the relative error changed under a multiplicative conversion")
+            # the in-place forms, on an object whose accessors were read before: value, error and rel afterwards are those of the
+            # converted measurement (and of the functional form)
+            try:
+                m_ = u.Measurement(float(n), float(s), c["src"])
+                read_before = (m_.value.magnitude, m_.error.magnitude, (m_.rel if n != 0 else None))
+                m_.ito(c["dst"])
+                got_n, got_s = m_.value.magnitude, m_.error.magnitude
+                if not (close(got_n, want_n, 1e-9) and close(got_s, want_s)):
+                    v.append(f"{tag}: after reading value / error / rel ({read_before}) and ito({c['dst']!r}) the object reports "
+                             f"{got_n} +/- {got_s}, expected {float(want_n)} +/- {float(want_s)}")
+                elif want_n != 0 and not close(m_.rel, abs(want_s / want_n)):
+                    v.append(f"{tag}: after ito({c['dst']!r}) rel = {m_.rel}, expected {float(abs(want_s / want_n))}")
+                m2 = u.Measurement(float(n), float(s), c["src"])
+                _ = (m2.error, m2.rel if n != 0 else None)
+                m2.ito_base_units()
+                back = m2.to(c["src"])
+                if not (close(back.value.magnitude, n, 1e-9) and close(back.error.magnitude, s)):
+                    v.append(f"{tag}: ito_base_units() after reading error / rel, then back to {c['src']}: {back.value.magnitude} +/- "
+                             f"{back.error.magnitude}, expected {float(n)} +/- {float(s)}")
+            except Exception as exc:  # noqa: BLE001
+                v.append(f"{tag}: in-place conversion raised {type(exc).__name__}: {exc}")
             return v
         if k == "notation":
             return self.oracle_notation(u, c)
